@@ -186,7 +186,11 @@ func verifCLIMalformed(garbage string, mode int) string {
 	fg, fok := filepath.Join(dir, "g"), filepath.Join(dir, "ok")
 	os.WriteFile(fg, []byte(garbage), 0o644)
 	os.WriteFile(fok, []byte(`{"a":[1,2,3]}`), 0o644)
-	argsets := [][]string{{fg, fok}, {fok, fg}, {"-p", fg, fok}, {"-p", "-f", "patch", fg, fok}, {"-p", "-f", "merge", fg, fok}, {"-yaml", fg, fok}, {"-t", "jd2patch", fg}, {"-t", "patch2jd", fg}}
+	fl, fl1 := filepath.Join(dir, "l"), filepath.Join(dir, "l1")
+	os.WriteFile(fl, []byte(`[]`), 0o644)
+	os.WriteFile(fl1, []byte(`[{}]`), 0o644)
+	argsets := [][]string{{fg, fok}, {fok, fg}, {"-p", fg, fok}, {"-p", "-f", "patch", fg, fok}, {"-p", "-f", "merge", fg, fok}, {"-yaml", fg, fok}, {"-t", "jd2patch", fg}, {"-t", "patch2jd", fg},
+		{"-p", fg, fl}, {"-p", fg, fl1}, {"-p", "-f", "patch", fg, fl1}, {"-t", "yaml2json", fg}, {"-t", "json2yaml", fg}, {"-yaml", "-p", fg, fok}, {"-yaml", fok, fg}, {"-t", "jd2merge", fg}, {"-t", "merge2jd", fg}}
 	args := argsets[mode%len(argsets)]
 	for bi, bin := range bins {
 		r := verifExec(bin, "", args...)
@@ -205,5 +209,8 @@ func verifCLIMalformed(garbage string, mode int) string {
 
 func verifGarbage() []string {
 	return []string{"{", "[1,", "@ [1]\n  1\n+ 2\n", "@ [-2]\n+ 1\n", "@ [5]\n+ 1\n", "@ [-3,0]\n- 1\n", "@ [\"a\",1]\n  1\n- 2\n  3\n", "^ {\"Merge\":1}\n", "@ []\n", "+ 1\n",
-		"[{\"op\":\"test\",\"path\":\"/a/5\",\"value\":1},{\"op\":\"remove\",\"path\":\"/a/5\",\"value\":1}]", "[{\"op\":\"add\",\"path\":\"/a/-\",\"value\":1}]", "[{\"op\":\"remove\"}]", "{\"a\":null}", "null", "\x00\x01", "a: b: c", "- - -", "@ [{}]\n- 1\n", "@ [[]]\n- 1\n- 1\n", "@ [\"a\",{}]\n+ 7\n", "@ [\"a\",0]\n[\n- 1\n- 2\n- 3\n- 4\n"}
+		"[{\"op\":\"test\",\"path\":\"/a/5\",\"value\":1},{\"op\":\"remove\",\"path\":\"/a/5\",\"value\":1}]", "[{\"op\":\"add\",\"path\":\"/a/-\",\"value\":1}]", "[{\"op\":\"remove\"}]", "{\"a\":null}", "null", "\x00\x01", "a: b: c", "- - -", "@ [{}]\n- 1\n", "@ [[]]\n- 1\n- 1\n", "@ [\"a\",{}]\n+ 7\n", "@ [\"a\",0]\n[\n- 1\n- 2\n- 3\n- 4\n",
+		"a: .inf\n", ".nan\n", "- .inf\n- 1\n", "a: -.inf\n", "[{\"op\":\"add\",\"path\":\"/a~\",\"value\":1}]", "[{\"op\":\"add\",\"path\":\"/~\",\"value\":1}]",
+		"@ [-1,\"a\"]\n+ 1\n", "@ [-2,\"a\"]\n+ 1\n", "@ [-1e30,0]\n+ 1\n", "@ [-2.5,\"a\"]\n+ 1\n", "@ [1e30]\n+ 1\n", "@ [0.5]\n+ 1\n", "@ [-1]\n  5\n+ 6\n  7\n",
+		"[{\"op\":\"test\",\"path\":\"/0\",\"value\":1},{\"op\":\"test\",\"path\":\"/2\",\"value\":3}]", "[{\"op\":\"test\",\"path\":\"/a\"}]", "@ [\"x\"]\n", "1e999", "[1e999]", "\"\\ud800\"", "{\"a\":1,\"a\":2}"}
 }
